@@ -243,3 +243,87 @@ contract('mapproxy.service.wms:WMSServer.check_map_request', props=['C16'],
          opaque_fields={'size': 'tuple[int,int]'}, stable_fields=['size', 'params'],
          raises={'RequestError': True},
          trace=[_pixel_limit_first])
+
+
+# ---- WMS request validation: what an accepted request is known to satisfy ---------------------------------------------------------------
+RW = 'mapproxy.request.wms:'
+cls(RW + 'WMSMapRequest', fields=dict(params='opaque', non_strict='opaque', expected_param='opaque', non_strict_params='opaque'))
+
+
+def _bbox_is_proper(ex, st, post, result):
+    import z3
+    b = ex.opaque_field(post.old if getattr(post, 'old', None) is not None else st, st.heap[post.env['self'].ref]['params'], 'bbox')
+    yield ('accepted_bbox_has_positive_extent', z3.And(b.items[0].t < b.items[2].t, b.items[1].t < b.items[3].t),
+           'a request is accepted only with minx < maxx and miny < maxy (an empty or inverted bbox is refused before anything is computed from it)')
+
+
+contract(RW + 'WMSMapRequest.validate_bbox', props=['C16'],
+         types={}, returns='none', default_callee='opaque',
+         opaque_fields={'bbox': 'tuple[real,real,real,real]'}, stable_fields=['bbox'],
+         opaque_spec={'get': {'pure': True}}, raises={'RequestError': True},
+         trace=[_bbox_is_proper])
+
+
+def _member_of(name_of_arg):
+    def clause(ex, st, post, result):
+        import z3
+        lst = post.env[name_of_arg]
+        ins = [e for i, e in T.evs(st, 'contains') if len(e.args) == 2 and (e.args[0] is lst or (hasattr(e.args[0], 't') and hasattr(lst, 't') and e.args[0].t.eq(lst.t)))]
+        g = z3.BoolVal(len(ins) == 1)
+        for e in ins:
+            g = z3.And(g, ex.truth(st, e.result))
+        yield ('accepted_value_is_configured', g,
+               'the request is accepted only if the requested value was looked up in the configured list and found')
+    return clause
+
+
+contract(RW + 'WMSMapRequest.validate_format', props=['C16'],
+         types=dict(image_formats='opaque'), returns='none', default_callee='opaque', raises={'RequestError': True},
+         trace=[_member_of('image_formats')])
+contract(RW + 'WMSMapRequest.validate_srs', props=['C16'],
+         types=dict(srs='opaque'), returns='none', default_callee='opaque', raises={'RequestError': True},
+         opaque_spec={'upper': {'pure': True}},
+         trace=[_member_of('srs')])
+
+
+def _layer_known(ex, st, k):
+    import z3
+    evs_ = st.trace[getattr(st, 'iter_start_trace', 0):]
+    h = st.heap[st.env['self'].ref]
+    ins = [e for e in evs_ if e.name == 'contains' and len(e.args) == 2 and hasattr(e.args[0], 't') and e.args[0].t.eq(h['layers'].t)]
+    g = z3.BoolVal(len(ins) == 1)
+    for e in ins:
+        g = z3.And(g, ex.truth(st, e.result), z3.BoolVal(e.args[1] is st.env['layer']))
+    yield ('every_requested_layer_is_configured', g, 'each requested (and each queried) layer name is looked up in self.layers and found, else the request is refused')
+
+
+contract('mapproxy.service.wms:WMSServer.validate_layers', props=['C16'],
+         types=dict(request='opaque'), returns='none', default_callee='opaque', raises={'RequestError': True},
+         opaque_spec={'chain': {'returns': 'list[opaque]', 'pure': True}},
+         loops={0: dict(inv=[], types={}, body_trace=[_layer_known])})
+
+
+def _wmts_request_known(ex, st, post, result):
+    import z3
+    h = st.heap[post.env['self'].ref]
+    req = post.env['request']
+    ins = [e for i, e in T.evs(st, 'contains') if len(e.args) == 2]
+    top = [e for e in ins if hasattr(e.args[0], 't') and e.args[0].t.eq(h['layers'].t)]
+    g = z3.BoolVal(len(top) == 1 and len(ins) >= 2)
+    if len(top) == 1 and len(ins) >= 2:
+        lay = ex.opaque_field_at(st, top[0], req, 'layer')
+        g = z3.And(g, ex.truth(st, top[0].result), top[0].args[1].t == lay.t, ex.truth(st, ins[1].result),
+                   ins[1].args[1].t == ex.opaque_field_at(st, ins[1], req, 'tilematrixset').t)
+    mk = [e for i, e in T.evs(st, 'make_request')]
+    yield ('wmts_layer_and_matrix_set_are_configured', z3.And(g, z3.BoolVal(len(mk) == 1 and st.trace.index(mk[0]) == 0)),
+           'a WMTS request is accepted only after it was parsed (make_request) and its layer is configured and its tile matrix '
+           'set is one of that layer')
+
+
+cls('mapproxy.service.wmts:WMTSServer', fields=dict(layers='opaque', info_formats='opaque'))
+contract('mapproxy.service.wmts:WMTSServer.check_request', props=['C16'],
+         types=dict(request='opaque', info_formats='opt[opaque]'), returns='none', default_callee='opaque',
+         opaque_fields={'layer': 'opaque', 'tilematrixset': 'opaque'}, stable_fields=[],
+         opaque_spec={'make_request': {'raises': ['RequestError']}, 'values': {'pure': True}},
+         raises={'RequestError': True},
+         trace=[_wmts_request_known])
